@@ -75,7 +75,12 @@ class Mode:
     def number(self, name, dtype, **kw):
         """A scalar of the given numpy dtype kind (int dtypes -> integer-valued)."""
         if np.dtype(dtype).kind in "iu":
-            return self.int(name, **{k: v for k, v in kw.items() if k in ("lo", "hi")})
+            # integer dtypes: values the dtype can hold (int64: within 2^53 so that they survive a float conversion)
+            lim = 2 ** 31 - 1 if np.dtype(dtype).itemsize <= 4 else 2 ** 53
+            b = {k: v for k, v in kw.items() if k in ("lo", "hi")}
+            b.setdefault("lo", -lim)
+            b.setdefault("hi", lim)
+            return self.int(name, **b)
         return self.real(name, **kw)
 
     def array(self, name, shape, dtype="float64", **kw):
